@@ -189,6 +189,35 @@ pub struct Script {
     /// changed in place, as a hot reload of the configuration would do
     #[serde(default)]
     pub cookie_switch: Option<(usize, bool, bool, u8, bool)>,
+    /// the run is an OVERLAP scenario instead of a sequence: two requests presenting the same cookie
+    /// are in flight at once (a browser that fires parallel requests), interleaved at store calls
+    #[serde(default)]
+    pub overlap: Option<Overlap>,
+    /// the run is a MAX-AGE scenario: the configured TTL is one of the extreme values a `Duration` can
+    /// hold (index into `EXTREME_TTLS`), the cookie is persistent, a returning client's request leaves
+    /// the server state alone: `Max-Age` must be the configured TTL, clamped to what it can express
+    #[serde(default)]
+    pub extreme_ttl: Option<u8>,
+}
+
+const EXTREME_TTLS: [Duration; 6] = [
+    Duration::from_secs(60 * 60 * 24 * 365 * 1000),
+    Duration::from_secs(i64::MAX as u64),
+    Duration::from_secs(i64::MAX as u64 + 1),
+    Duration::from_secs(u64::MAX),
+    Duration::MAX,
+    Duration::from_millis(90_500),
+];
+
+/// Two requests of one session in flight at once. `a` and `b` are their operations (a reduced
+/// alphabet: SGet, SInsert, SRemove, ForceLoad, CInsert, Delete, CycleId, Invalidate, Sync); every
+/// call into the store is a scheduling point and `order` says which request moves next (bit i of
+/// the byte sequence: 0 = A, 1 = B; when the chosen one has finished the other one moves).
+#[derive(Serialize, Deserialize, Clone, Debug, PartialEq)]
+pub struct Overlap {
+    pub a: Vec<Op>,
+    pub b: Vec<Op>,
+    pub order: Vec<u8>,
 }
 
 const SKEYS: [&str; 3] = ["a", "b", "c"];
@@ -724,6 +753,12 @@ fn script_shape(s: &Script) -> String {
 }
 
 pub fn execute(script: &Script, _tape: &mut Tape, keep_log: bool) -> RunOut {
+    if let Some(ov) = &script.overlap {
+        return execute_overlap(script, ov, keep_log);
+    }
+    if let Some(i) = script.extreme_ttl {
+        return execute_extreme_ttl(script, i, keep_log);
+    }
     let cfg = &script.cfg;
     seams::set_entropy(Some(0xC11));
     seams::set_clock_ns(seams::EPOCH_S * 1_000_000_000, cfg.tick_ns);
@@ -2258,7 +2293,54 @@ impl Sim for SesSim {
                 r.other_cookies = rng.usize(1, 5) as u8;
             }
         }
-        Script { arm: arm.to_string(), cfg, reqs, crypto_switch, cookie_switch }
+        // last draw: one C11 run in twelve is an OVERLAP scenario — two requests presenting the same
+        // cookie in flight at once, interleaved at store calls (in-memory store, a processor that lets
+        // the cookie out)
+        if !c12 && rng.chance(1, 12) {
+            let mut cfg = cfg;
+            cfg.sqlite = false;
+            cfg.crypto = Crypto::Encrypt;
+            cfg.rule_names_session_cookie = true;
+            cfg.cookie_serde_omit = None;
+            if !cfg.cookie_name.bytes().all(|b| b.is_ascii_alphanumeric() || b == b'_' || b == b'-') {
+                cfg.cookie_name = "id".into();
+            }
+            let gen_ops = |rng: &mut Rng| -> Vec<Op> {
+                (0..rng.usize(1, 4))
+                    .map(|_| match rng.below(12) {
+                        0 | 1 => Op::SGet(rng.below(2) as u8),
+                        2 | 3 => Op::SInsert(rng.below(2) as u8),
+                        4 => Op::SRemove(0),
+                        5 => Op::ForceLoad,
+                        6 => Op::CInsert(rng.below(2) as u8),
+                        7 => Op::Delete,
+                        8 | 9 => Op::CycleId,
+                        10 => Op::Invalidate,
+                        _ => Op::Sync,
+                    })
+                    .collect()
+            };
+            let mut a = gen_ops(rng);
+            let b = gen_ops(rng);
+            if rng.chance(1, 2) {
+                a.push(Op::Invalidate);
+            }
+            let order = rng.bytes(8);
+            return Script { arm: "overlap".into(), cfg, reqs: Vec::new(), crypto_switch: None, cookie_switch: None, overlap: Some(Overlap { a, b, order }), extreme_ttl: None };
+        }
+        if c12 && rng.chance(1, 150) {
+            let mut cfg = cfg;
+            cfg.sqlite = false;
+            cfg.crypto = Crypto::Encrypt;
+            cfg.rule_names_session_cookie = true;
+            cfg.cookie_serde_omit = None;
+            cfg.persistent = true;
+            if !cfg.cookie_name.bytes().all(|b| b.is_ascii_alphanumeric() || b == b'_' || b == b'-') {
+                cfg.cookie_name = "id".into();
+            }
+            return Script { arm: "max-age".into(), cfg, reqs: Vec::new(), crypto_switch: None, cookie_switch: None, overlap: None, extreme_ttl: Some(rng.below(EXTREME_TTLS.len() as u64) as u8) };
+        }
+        Script { arm: arm.to_string(), cfg, reqs, crypto_switch, cookie_switch, overlap: None, extreme_ttl: None }
     }
 
     fn run(script: &Script, tape: &mut Tape, keep_log: bool) -> RunOut {
@@ -2267,6 +2349,26 @@ impl Sim for SesSim {
 
     fn shrink(s: &Script) -> Vec<Script> {
         let mut c = Vec::new();
+        if let Some(ov) = &s.overlap {
+            for i in 0..ov.a.len() {
+                let mut t = s.clone();
+                t.overlap.as_mut().unwrap().a.remove(i);
+                c.push(t);
+            }
+            for i in 0..ov.b.len() {
+                let mut t = s.clone();
+                t.overlap.as_mut().unwrap().b.remove(i);
+                c.push(t);
+            }
+            for i in 0..ov.order.len() {
+                if ov.order[i] != 0 {
+                    let mut t = s.clone();
+                    t.overlap.as_mut().unwrap().order[i] = 0;
+                    c.push(t);
+                }
+            }
+            return c;
+        }
         for i in 0..s.reqs.len() {
             let mut t = s.clone();
             t.reqs.remove(i);
@@ -2413,4 +2515,359 @@ impl Sim for SesSim {
         }
         c
     }
+}
+
+
+// ---------------------------------------------------------------------------------------------
+// overlap arm: two requests of ONE session in flight at once
+
+/// Store wrapper of the overlap arm: every call first gives the CPU back once, so that the driver
+/// decides, call by call, which of the two requests moves next.
+struct TurnStore {
+    inner: Arc<InMemorySessionStore>,
+    calls: Arc<Mutex<Vec<String>>>,
+    /// which request the driver is polling right now (b'A' / b'B' / b'0')
+    who: Arc<std::sync::atomic::AtomicU8>,
+    /// calls in the order they EXECUTED: (who, operation, id, answered-with-a-record / succeeded)
+    done: Arc<Mutex<Vec<(u8, &'static str, String, bool)>>>,
+}
+
+impl TurnStore {
+    async fn turn(&self, what: String) {
+        self.calls.lock().unwrap().push(what);
+        YieldOnce(false).await;
+    }
+    fn note(&self, op: &'static str, id: &SessionId, ok: bool) {
+        let who = self.who.load(std::sync::atomic::Ordering::SeqCst);
+        self.done.lock().unwrap().push((who, op, id.inner().to_string(), ok));
+    }
+}
+
+#[async_trait::async_trait]
+impl SessionStorageBackend for TurnStore {
+    async fn create(&self, id: &SessionId, record: SessionRecordRef<'_>) -> Result<(), CreateError> {
+        self.turn(format!("create {}", short(&id.inner().to_string()))).await;
+        let r = self.inner.create(id, record).await;
+        self.note("create", id, r.is_ok());
+        r
+    }
+    async fn update(&self, id: &SessionId, record: SessionRecordRef<'_>) -> Result<(), UpdateError> {
+        self.turn(format!("update {}", short(&id.inner().to_string()))).await;
+        let r = self.inner.update(id, record).await;
+        self.note("update", id, r.is_ok());
+        r
+    }
+    async fn update_ttl(&self, id: &SessionId, ttl: Duration) -> Result<(), UpdateTtlError> {
+        self.turn(format!("update_ttl {}", short(&id.inner().to_string()))).await;
+        let r = self.inner.update_ttl(id, ttl).await;
+        self.note("update_ttl", id, r.is_ok());
+        r
+    }
+    async fn load(&self, id: &SessionId) -> Result<Option<SessionRecord>, LoadError> {
+        self.turn(format!("load {}", short(&id.inner().to_string()))).await;
+        let r = self.inner.load(id).await;
+        self.note("load", id, matches!(r, Ok(Some(_))));
+        r
+    }
+    async fn delete(&self, id: &SessionId) -> Result<(), DeleteError> {
+        self.turn(format!("delete {}", short(&id.inner().to_string()))).await;
+        let r = self.inner.delete(id).await;
+        self.note("delete", id, r.is_ok());
+        r
+    }
+    async fn change_id(&self, old: &SessionId, new: &SessionId) -> Result<(), ChangeIdError> {
+        self.turn(format!("change_id {} -> {}", short(&old.inner().to_string()), short(&new.inner().to_string()))).await;
+        let r = self.inner.change_id(old, new).await;
+        self.note("change_id", old, r.is_ok());
+        r
+    }
+    async fn delete_expired(&self, b: Option<NonZeroUsize>) -> Result<usize, DeleteExpiredError> {
+        self.inner.delete_expired(b).await
+    }
+}
+
+impl std::fmt::Debug for TurnStore {
+    fn fmt(&self, f: &mut std::fmt::Formatter<'_>) -> std::fmt::Result {
+        f.write_str("TurnStore")
+    }
+}
+
+#[derive(Default)]
+struct OvReqOut {
+    invalidated: bool,
+    cycled: bool,
+    finalize: Option<Result<(), String>>,
+    reads: Vec<(String, Option<Value>)>,
+    log: Vec<String>,
+}
+
+fn ov_sig(ops: &[Op]) -> String {
+    World::sig_ops(ops)
+}
+
+#[allow(clippy::too_many_arguments, clippy::await_holding_refcell_ref)]
+async fn ov_request<'a>(
+    name: &'static str,
+    ops: Vec<Op>,
+    incoming: IncomingSession,
+    store: &'a SessionStore,
+    config: &'a SessionConfig,
+    processor: &'a Processor,
+    next_val: &'a std::cell::Cell<u64>,
+    written: &'a std::cell::RefCell<BTreeMap<String, BTreeSet<String>>>,
+    res: &'a std::cell::RefCell<OvReqOut>,
+    rc: &'a std::cell::RefCell<ResponseCookies>,
+) {
+            let mut s = Session::new(store, config, Some(incoming));
+            for op in &ops {
+                match op {
+                    Op::SGet(k) => {
+                        let key = SKEYS[*k as usize % 3];
+                        if let Ok(v) = s.get_raw(key).await.map(|v| v.cloned()) {
+                            res.borrow_mut().log.push(format!("{name} sget {key} -> {v:?}"));
+                            res.borrow_mut().reads.push((key.to_string(), v));
+                        }
+                    }
+                    Op::SInsert(k) => {
+                        let key = SKEYS[*k as usize % 3];
+                        next_val.set(next_val.get() + 1);
+                        let val = value_for(key, next_val.get());
+                        written.borrow_mut().entry(key.to_string()).or_default().insert(val.to_string());
+                        let _ = s.insert_raw(key, val).await;
+                    }
+                    Op::SRemove(k) => {
+                        let _ = s.remove_raw(SKEYS[*k as usize % 3]).await;
+                    }
+                    Op::ForceLoad => {
+                        let _ = s.force_load().await;
+                    }
+                    Op::CInsert(k) => {
+                        next_val.set(next_val.get() + 1);
+                        let _ = s.client_mut().insert_raw(CKEYS[*k as usize % 2], value_for("x", next_val.get()));
+                    }
+                    Op::Delete => s.delete(),
+                    Op::CycleId => {
+                        s.cycle_id();
+                        res.borrow_mut().cycled = true;
+                    }
+                    Op::Invalidate => {
+                        s.invalidate();
+                        res.borrow_mut().invalidated = true;
+                    }
+                    Op::Sync => {
+                        let _ = s.sync().await;
+                    }
+                    _ => {}
+                }
+            }
+            if s.is_invalidated() {
+                res.borrow_mut().invalidated = true;
+            }
+            let mut cookies = rc.borrow_mut();
+            let r = finalize_session(Response::ok(), &mut cookies, processor, s).await;
+            res.borrow_mut().finalize = Some(r.map(|_| ()).map_err(|e| format!("{e:?}")));
+}
+
+fn execute_overlap(script: &Script, ov: &Overlap, keep_log: bool) -> RunOut {
+    let cfg = &script.cfg;
+    seams::set_entropy(Some(0xC11));
+    seams::set_clock_ns(seams::EPOCH_S * 1_000_000_000, cfg.tick_ns);
+    seams::reset_clock_reads();
+    let mut out = RunOut::new(EventLog::new(keep_log));
+    out.count("overlap_runs", 1);
+    let config = build_config(cfg);
+    let processor = build_processor(cfg, &cfg.crypto, None);
+    let mem = Arc::new(InMemorySessionStore::new());
+    let calls = Arc::new(Mutex::new(Vec::new()));
+    let who = Arc::new(std::sync::atomic::AtomicU8::new(b'0'));
+    let done = Arc::new(Mutex::new(Vec::new()));
+    let store = SessionStore::new(TurnStore { inner: mem.clone(), calls: calls.clone(), who: who.clone(), done: done.clone() });
+    let shape = format!("overlap a=[{}] b=[{}]", ov_sig(&ov.a), ov_sig(&ov.b));
+    out.log.ev(format_args!("arm=overlap cfg={}", serde_json::to_string(cfg).unwrap_or_default()));
+    let mut written: BTreeMap<String, BTreeSet<String>> = BTreeMap::new();
+
+    // ---- request 0 (alone): a new session with server-side and client-side state
+    let v0 = value_for("a", 1);
+    let c0 = value_for("x", 2);
+    written.entry("a".into()).or_default().insert(v0.to_string());
+    let mut rc0 = ResponseCookies::new();
+    let r0 = block_on(async {
+        let mut s = Session::new(&store, &config, None);
+        let _ = s.insert_raw("a", v0.clone()).await;
+        let _ = s.client_mut().insert_raw("x", c0.clone());
+        finalize_session(Response::ok(), &mut rc0, &processor, s).await.map(|_| ()).map_err(|e| format!("{e:?}"))
+    });
+    let header = match r0 {
+        Some(Ok(())) => pavex::cookie::inject_response_cookies(Response::ok(), rc0, &processor).ok().and_then(|resp| {
+            resp.headers().get_all(http::header::SET_COOKIE).iter().filter_map(|v| v.to_str().ok()).map(parse_set_cookie).find(|c| !c.removal).map(|c| format!("{}={}", c.name, c.raw_value))
+        }),
+        _ => None,
+    };
+    let Some(header) = header else {
+        // the configuration does not let a session cookie out (no crypto rule…): nothing to overlap
+        out.count("overlap_setup_refused", 1);
+        return out;
+    };
+    let mut head = RequestHead { method: http::Method::GET, target: "/".parse().unwrap(), version: http::Version::HTTP_11, headers: http::HeaderMap::new() };
+    head.headers.insert(http::header::COOKIE, http::HeaderValue::from_str(&header).unwrap());
+    let cookies: RequestCookies<'_> = pavex::cookie::extract_request_cookies(&head, &processor).unwrap_or_else(|_| RequestCookies::new());
+    let (Some(inc_a), Some(inc_b)) = (IncomingSession::extract(&cookies, &config.cookie), IncomingSession::extract(&cookies, &config.cookie)) else {
+        out.violations.push(viol("C11", "cookie-roundtrip", format!("cookie not accepted back {shape}"), "the session cookie of the set-up request was not recognised when presented".into()));
+        return out;
+    };
+    let old_id: SessionId = match cookies.get(&cfg.cookie_name).and_then(|c| serde_json::from_str::<Wire>(c.value()).ok()).and_then(|w| serde_json::from_value(Value::String(w.id)).ok()) {
+        Some(id) => id,
+        None => {
+            out.count("overlap_setup_refused", 1);
+            return out;
+        }
+    };
+    calls.lock().unwrap().clear();
+    done.lock().unwrap().clear();
+
+    // ---- requests A and B, in flight at once
+    let next_val = std::cell::Cell::new(10u64);
+    let written = std::cell::RefCell::new(written);
+    let (res_a, res_b) = (std::cell::RefCell::new(OvReqOut::default()), std::cell::RefCell::new(OvReqOut::default()));
+    let (rc_a, rc_b) = (std::cell::RefCell::new(ResponseCookies::new()), std::cell::RefCell::new(ResponseCookies::new()));
+    crate::quiet_panics();
+    let panicked = std::panic::catch_unwind(std::panic::AssertUnwindSafe(|| {
+        let mut fa = std::pin::pin!(ov_request("A", ov.a.clone(), inc_a, &store, &config, &processor, &next_val, &written, &res_a, &rc_a));
+        let mut fb = std::pin::pin!(ov_request("B", ov.b.clone(), inc_b, &store, &config, &processor, &next_val, &written, &res_b, &rc_b));
+        let mut cx = Context::from_waker(std::task::Waker::noop());
+        let (mut done_a, mut done_b) = (false, false);
+        let mut step = 0usize;
+        let mut switches = 0u64;
+        let mut last = 2u8;
+        while !(done_a && done_b) && step < 400 {
+            let bit = ov.order.get(step / 8).map(|b| (b >> (step % 8)) & 1).unwrap_or((step % 2) as u8);
+            step += 1;
+            let pick_b = if done_a { true } else if done_b { false } else { bit == 1 };
+            if last != 2 && last != pick_b as u8 {
+                switches += 1;
+            }
+            last = pick_b as u8;
+            who.store(if pick_b { b'B' } else { b'A' }, std::sync::atomic::Ordering::SeqCst);
+            if pick_b {
+                if fb.as_mut().poll(&mut cx).is_ready() {
+                    done_b = true;
+                }
+            } else if fa.as_mut().poll(&mut cx).is_ready() {
+                done_a = true;
+            }
+        }
+        (done_a && done_b, switches)
+    }));
+    let _ = crate::take_panics();
+    for l in calls.lock().unwrap().iter() {
+        out.log.ev(format_args!("store call: {l}"));
+    }
+    match panicked {
+        Err(_) => {
+            out.count("observation_panic_in_overlapping_requests", 1);
+            return out;
+        }
+        Ok((false, _)) => {
+            out.violations.push(viol("C11", "overlap-terminates", format!("requests did not finish {shape}"), "two overlapping requests of one session did not both complete within 400 scheduling steps".into()));
+            return out;
+        }
+        Ok((true, switches)) => {
+            if switches >= 2 {
+                out.count("overlap_requests_really_interleaved", 1);
+            }
+        }
+    }
+    let (ra, rb) = (res_a.into_inner(), res_b.into_inner());
+    for l in ra.log.iter().chain(rb.log.iter()) {
+        out.log.ev(format_args!("{l}"));
+    }
+    out.log.ev(format_args!("A: invalidated={} cycled={} finalize={:?}; B: invalidated={} cycled={} finalize={:?}", ra.invalidated, ra.cycled, ra.finalize, rb.invalidated, rb.cycled, rb.finalize));
+    // ---- oracle: only what holds for EVERY interleaving of the two requests
+    // (a) every server-side value a request read was written for that key in this session
+    let written = written.into_inner();
+    for (who, r) in [("A", &ra), ("B", &rb)] {
+        for (k, v) in &r.reads {
+            if let Some(v) = v {
+                if !written.get(k).map(|s| s.contains(&v.to_string())).unwrap_or(false) {
+                    out.violations.push(viol("C11", "carry-over", format!("overlapping request read a value nobody wrote {shape}"), format!("request {who} read {k}={v}, which was never written for that key in this session")));
+                }
+            }
+        }
+    }
+    // (b) after invalidate() the server record is gone and the old cookie yields no state; after
+    //     cycle_id() the state is reachable only under the new id — also when another request of the
+    //     same session was in flight: a request that had LOADED the record before it was deleted /
+    //     renamed must not put state back under the old id. (A request whose load came after the
+    //     deletion saw "no state", which is all the clause asks; what it then writes under the id it
+    //     was given is `MissingServerState::Allow`'s documented business — not judged here.)
+    let done = done.lock().unwrap().clone();
+    let old = old_id.inner().to_string();
+    for (x, y) in [(b'A', b'B'), (b'B', b'A')] {
+        out.log.ev(format_args!("executed: {}", done.iter().map(|(w, op, id, ok)| format!("{}:{op}({})={ok}", *w as char, short(id))).collect::<Vec<_>>().join(" ")));
+        let (rx, ry) = if x == b'A' { (&ra, &rb) } else { (&rb, &ra) };
+        if rx.finalize != Some(Ok(())) || !(rx.invalidated || rx.cycled) {
+            continue;
+        }
+        // the instant X's delete / rename of the old id took effect
+        let Some(t_gone) = done.iter().position(|(w, op, id, ok)| *w == x && *ok && id == &old && (*op == "delete" || *op == "change_id")) else { continue };
+        let y_loaded_before = done[..t_gone].iter().any(|(w, op, id, ok)| *w == y && *op == "load" && id == &old && *ok);
+        out.count(if rx.invalidated { "overlap_invalidate_completed" } else { "overlap_cycle_completed" }, 1);
+        if !y_loaded_before {
+            continue;
+        }
+        out.count("overlap_other_request_held_the_state_when_it_was_invalidated_or_renamed", 1);
+        let old_rec = block_on(async { mem.load(&old_id).await }).and_then(|r| r.ok()).flatten().filter(|r| !r.state.is_empty());
+        if let Some(rec) = old_rec {
+            let (inv, sig) = if rx.invalidated { ("invalidate", "record of an invalidated session is back (overlapping requests)") } else { ("cycle-id", "old id has state again (overlapping requests)") };
+            out.violations.push(viol("C11", inv, format!("{sig} {shape}"), format!("request {} {} and completed; request {} had loaded the record before that and was still in flight (finalize: {:?}); afterwards the store serves {:?} under the OLD id: the old cookie yields state again", x as char, if rx.invalidated { "invalidated the session" } else { "cycled the id" }, y as char, ry.finalize, to_map(&rec.state))));
+        }
+    }
+    out
+}
+
+
+/// C12, `Max-Age` of a persistent session cookie under TTLs at the edge of what a `Duration` holds
+/// (`Duration::MAX` as a "never expires" sentinel): seeded enumeration of the configuration, one
+/// request of a returning client that does not touch the server-side state.
+fn execute_extreme_ttl(script: &Script, i: u8, keep_log: bool) -> RunOut {
+    let cfg = &script.cfg;
+    seams::set_entropy(Some(0xC12));
+    seams::set_clock_ns(seams::EPOCH_S * 1_000_000_000, cfg.tick_ns);
+    seams::reset_clock_reads();
+    let mut out = RunOut::new(EventLog::new(keep_log));
+    out.count("max_age_extreme_ttl_runs", 1);
+    let ttl = EXTREME_TTLS[i as usize % EXTREME_TTLS.len()];
+    let mut config = build_config(cfg);
+    config.state.ttl = ttl;
+    let processor = build_processor(cfg, &cfg.crypto, None);
+    let store = SessionStore::new(InMemorySessionStore::new());
+    let id = SessionId::random();
+    let mut rc = ResponseCookies::new();
+    crate::quiet_panics();
+    let r = std::panic::catch_unwind(std::panic::AssertUnwindSafe(|| {
+        block_on(async {
+            // the record is there already, written under an ordinary TTL (the store is never asked to deal with the extreme one)
+            let _ = store.create(&id, SessionRecordRef { state: Cow::Owned(HashMap::new()), ttl: Duration::from_secs(1000) }).await;
+            let mut s = Session::new(&store, &config, Some(IncomingSession::from_parts(id, HashMap::new())));
+            let _ = s.client_mut().insert_raw("x", value_for("x", 1));
+            finalize_session(Response::ok(), &mut rc, &processor, s).await.map(|_| ()).map_err(|e| format!("{e:?}"))
+        })
+    }));
+    let _ = crate::take_panics();
+    let Ok(Some(Ok(()))) = r else {
+        out.count("max_age_run_without_a_cookie", 1);
+        return out;
+    };
+    let Some(c) = rc.iter().find(|c| c.name() == cfg.cookie_name) else {
+        out.count("max_age_run_without_a_cookie", 1);
+        return out;
+    };
+    let want: i64 = i64::try_from(ttl.as_secs()).unwrap_or(i64::MAX);
+    out.log.ev(format_args!("ttl={ttl:?} max_age={:?} want={want}", c.max_age().map(|m| m.as_secs())));
+    match c.max_age() {
+        None => out.violations.push(viol("C12", "cookie-attributes", "attrs Max-Age missing (extreme ttl)".into(), format!("a persistent session cookie with a configured TTL of {ttl:?} carries no Max-Age"))),
+        Some(m) if m.as_secs() != want => out.violations.push(viol("C12", "cookie-attributes", "attrs Max-Age (extreme ttl)".into(), format!("configured TTL {ttl:?}: the persistent session cookie carries Max-Age={} s, the configured TTL (clamped to what Max-Age can express) is {want} s", m.as_secs()))),
+        Some(_) => out.count("max_age_matches_extreme_ttl", 1),
+    }
+    out
 }
